@@ -162,8 +162,9 @@ def _detect_alleles(variants, var_progress, first, bam_read):
                 j += 1
                 continue
             # An insertion variant at the very first base of an aligned block (read start, after a
-            # reference skip): the read does not span the insertion point, so nothing can be said.
-            if cigar_op != 1 and ref_len == 0 and var_pos == ref_pos and not left_flank:
+            # reference skip; also if the block begins with an I-Op): the read does not span the
+            # insertion point, so nothing can be said.
+            if ref_len == 0 and var_pos == ref_pos and not left_flank:
                 j += 1
                 continue
 
